@@ -143,6 +143,20 @@ def generate(rng, tier):
         p.update(levelmin=rng.choice([2, 2, 3]), levelmax=rng.choice([20, 21, 24, 30]), maxcells=min(p["maxcells"], 600), refine_p=min(p.get("refine_p", 0.3), 0.3),
                  bound_keys=None, ncpu=max(p["ncpu"], rng.choice([3, 5, 6])))
         p["bound_frac"] = sorted(rng.random() for _ in range(p["ncpu"] - 1))
+    deep_edge = (not deep) and (not tall) and rng.random() < 0.04
+    if deep_edge:
+        # a zoom refined beyond level 18 right below a face of the coarse search cubes, and a box whose lower edge lies a fraction
+        # of a 2**-18 step below that face: the cells in that sliver belong to the cube on the other side of the face
+        lm = rng.choice([2, 3])
+        f = rng.randrange(1, 2 ** (lm - 1)) / 2 ** (lm - 1) if lm > 2 else 0.5
+        ax = rng.randrange(3)
+        pt = [round(rng.uniform(0.1, 0.9), 6) + 1.0 / 3e7 for _ in range(3)]
+        pt[ax] = f - 0.2 * 2.0 ** -19
+        p.update(ndim=3, ordering="hilbert", levelmin=lm, levelmax=rng.choice([20, 21]), maxcells=300, refine_p=0.1, nboundary=0, bound_keys=None,
+                 ncpu=rng.choice([4, 6, 8]), chain=pt, part=None, sink=None, ghost_p=rng.choice([0.0, 0.3]),
+                 # (cell numbers beyond 2**53 at these depths: only variables whose written value does not encode a sign)
+                 hydro_vars=["density", "pressure"], grav=False, rt_vars=None)
+        p["bound_frac"] = sorted(rng.random() for _ in range(p["ncpu"] - 1))
     leaves = World(p).leaves()
     psel = dict(p, levelmax=max(c["level"] for c in leaves) + 1) if tall else p  # (boxes on the scale of the populated levels)
     sels = [gen_selection(rng, psel, leaves) for _ in range(rng.choice([1, 2, 3]) if not tall else 4)]
@@ -176,6 +190,19 @@ def generate(rng, tier):
                 else:
                     lo, hi = (x + rng.uniform(0.02, 0.2)) / side, (x + rng.uniform(0.8, 0.98)) / side
                 iv.append({"var": "position_" + c, "lo": lo, "hi": hi, "lo_closed": rng.random() < 0.5, "hi_closed": rng.random() < 0.5})
+            sels.append({"intervals": iv, "values": [], "cpu_list": None})
+    if deep_edge:
+        sels = []
+        for _ in range(4):
+            iv = []
+            for d, c in enumerate("xyz"):
+                if d == ax:
+                    lo, hi = f - rng.uniform(0.26, 0.45) * 2.0 ** -18, f + rng.uniform(0.2, 0.9) * 2.0 ** -(lm + rng.choice([0, 1, 2]))
+                else:
+                    w_ = rng.uniform(0.3, 0.9) * 2.0 ** -(lm + rng.choice([0, 1, 2]))
+                    a_ = rng.random()
+                    lo, hi = max(0.0, pt[d] - a_ * w_), min(1.0, pt[d] + (1 - a_) * w_)
+                iv.append({"var": "position_" + c, "lo": lo, "hi": hi, "lo_closed": False, "hi_closed": False})
             sels.append({"intervals": iv, "values": [], "cpu_list": None})
     for s in sels:
         s["warm"] = rng.random() < 0.25
@@ -330,7 +357,7 @@ def execute(case, stats):
 def measure(case):
     p = case["world"]
     sels = case["selections"]
-    return (len(sels), p["ncpu"], p["levelmax"], sum(len(s["intervals"]) + len(s["values"]) + (1 if s["cpu_list"] else 0) for s in sels),
+    return (len(sels), p["ncpu"], p["levelmax"], sum(len(s["intervals"]) + len(s["values"]) + (1 if s["cpu_list"] else 0) + (1 if s.get("after_level") else 0) for s in sels),
             p["maxcells"], len(p["hydro_vars"]) + sum(1 for s in sels if s.get("level")), int(bool(p["grav"])) + int(bool(p["rt_vars"])) + int(p["sink"] is not None), p["nboundary"],
             int(p["units"] != [1.0, 1.0, 1.0]), int(p["ghost_p"] * 10), p["noutput"], int(p["key_quad"]), p["levelmin"], sum(1 for s in sels if s.get("warm")) + sum(1 for s in sels if s.get("on_loaded")) + sum(1 for s in sels if s.get("callable") not in (None, "function")))
 
